@@ -747,10 +747,12 @@ def helper_classes() -> Dict[str, type]:
     return build_family(HELPERS)
 
 
-def make_class(name: str, base, fields: Dict[str, Any], extra: Optional[str] = None):
-    """Create one real schema class `name(base)` with the given {field: tspec}; not cached, not registered."""
+def make_class(name: str, base, fields: Dict[str, Any], extra: Optional[str] = None, plain: Optional[Dict[str, Any]] = None):
+    """Create one real schema class `name(base)` with the given {field: tspec}; not cached, not registered.
+    `plain`: class attributes without annotation (pydantic infers a field from a bare default value)."""
     names = helper_names()
     ns = {"__module__": __name__, "__qualname__": name, "__annotations__": {k: mk_hint(v, names) for k, v in fields.items()}}
+    ns.update(plain or {})
     if extra:
         ns["Config"] = type("Config", (), {"extra": _EXTRA[extra]})
     return type(base)(name, (base,), ns)
